@@ -128,6 +128,10 @@ def random_config(rng: random.Random, *, seg=None, ndim=None, allow3d_shape=True
     )
     if cfg.id_kind == "huge" and cfg.seg_dtype == "uint16":
         cfg.seg_dtype = "uint32"  # the labels must fit the dtype
+    if cfg.build == "from_tracks" and cfg.seed % 5 == 0:
+        # an annotation started from nothing: a plain Tracks object without detections is
+        # converted to a solution, everything is added by user actions afterwards
+        cfg.max_per_frame = 0
     return cfg
 
 
